@@ -13,7 +13,7 @@ from ..dataflow import default_of
 from ..effects import (TypeInfer, attr_channel, enum_channels, flag_channel,
                        inst_channel)
 from .markings import producer_before_consumer, stmt_closures
-from .util import actual, calls_in, ctor_arg, enclosing
+from .util import actual, calls_in, cguards, ctor_arg, enclosing
 
 EXPLANATION = (
     "The behaviour (termination and language inclusion of a process-mining "
@@ -208,19 +208,25 @@ def r12(rep: Report, ctx: Ctx) -> None:
                and s.value.id == "operator_name_map"]
     ok = False
     if lookups:
-        ifs = enclosing(ll.node, lookups[0], (ast.If,))
-        # the lookup sits in the final else of a chain that tests SEQUENCE
-        ok = any("SEQUENCE" in unparse(i.test) and not any(
-            x is lookups[0] for st in i.body for x in ast.walk(st))
-            for i in ifs)
+        # whenever the lookup runs, "operator is not SEQUENCE" is established
+        gs = cguards(ctx, ll, lookups[0])
+        ok = any(g[0] == "cmp" and g[2] == "NotEq" and "SEQUENCE" in (
+            g[1] + g[3]) for g in gs)
     rep.ob("R1.2", "SEQUENCE is handled before the table lookup", ok, fi=ll,
            node=lookups[0] if lookups else ll.node,
            detail="elif operator == SEQUENCE: ... else: "
                   "operator_name_map[...]")
     # get_operator_type compares with PUMLOperator member names
     got = ctx.func("Node.get_operator_type")
-    ok = any(isinstance(c, ast.Compare) and "operator.name" in unparse(c)
-             and "self.operator" in unparse(c) for c in ast.walk(got.node))
+    ok = False
+    for lp in [l for l in ast.walk(got.node) if isinstance(l, ast.For)
+               and unparse(l.iter) == "PUMLOperator"
+               and isinstance(l.target, ast.Name)]:
+        ok = ok or any(isinstance(c, ast.Compare) and len(c.ops) == 1
+                       and isinstance(c.ops[0], ast.Eq) and sorted(
+                           [unparse(c.left), unparse(c.comparators[0])]) ==
+                       sorted([f"{lp.target.id}.name", "self.operator"])
+                       for c in ast.walk(lp))
     rep.ob("R1.2", "gate nodes resolve their PUML operator by member name",
            ok, fi=got, node=got.node,
            detail="for operator in PUMLOperator: self.operator == "
@@ -363,10 +369,11 @@ def r15(rep: Report, ctx: Ctx) -> None:
                detail=f"argument '{unparse(a)}' derives from "
                       f"{sorted(n for n in names if n)}")
     ret = [r for r in entry.node.body if isinstance(r, ast.Return)]
-    ok = len(ret) == 1 and isinstance(ret[0].value, ast.Call) and call_name(
-        ret[0].value) == "write_puml_string"
+    rv = ctx.reach(entry).resolve(ret[0].value, at=ret[0]) if len(ret) == 1 \
+        and ret[0].value is not None else None
+    ok = isinstance(rv, ast.Call) and call_name(rv) == "write_puml_string"
     if ok:
-        recv = defs.resolve(ret[0].value.func.value)
+        recv = defs.resolve(rv.func.value)
         ok = isinstance(recv, ast.Call) and call_name(recv) == \
             "walk_nested_graph"
     rep.ob("R1.5", "the written diagram is the walked graph", ok, fi=entry,
@@ -461,10 +468,15 @@ def r17(rep: Report, ctx: Ctx) -> None:
            detail="if node.uid in sub_graph_node.break_uids: "
                   "node.update_event_types(BREAK)")
     kp = ctx.func("find_and_add_loop_kill_paths_to_sub_graph_node")
-    comps = {unparse(c.comparators[0]).split(".")[-1]: unparse(c.left)
-             for c in ast.walk(kp.node) if isinstance(c, ast.Compare)
-             and isinstance(c.ops[0], ast.Eq)
-             and unparse(c.left).endswith(".uid")}
+    comps = {}
+    for c in ast.walk(kp.node):
+        if isinstance(c, ast.Compare) and len(c.ops) == 1 and isinstance(
+                c.ops[0], ast.Eq):
+            l, r = unparse(c.left), unparse(c.comparators[0])
+            if r.endswith(".uid") and not l.endswith(".uid"):
+                l, r = r, l
+            if l.endswith(".uid"):
+                comps[r.split(".")[-1]] = l
     rep.ob("R1.7", "loop entry / exit are found by start_uid / end_uid",
            set(comps) >= {"start_uid", "end_uid"}, fi=kp, node=kp.node,
            detail=f"uid comparisons against {sorted(comps)}")
